@@ -341,6 +341,46 @@ func famTwoDeletes(cloud bool, bounds map[string]int) []*Scenario {
 	return out
 }
 
+// famReloadReplacement: the only pod of a reserving deployment has been deleted (its IP is in reserve) and its replacement is
+// scheduled while a configuration with one more address is loaded: the replacement must take the reserved IP.
+func famReloadReplacement(bounds map[string]int) []*Scenario {
+	var out []*Scenario
+	for _, c := range []wkClass{{"dp", "immutable"}, {"dp", "never"}, {"dppool", ""}} {
+		c := c
+		out = append(out, &Scenario{Name: "reload-vs-replacement/" + c.String(), Class: c.String(), Cfg: cfgOnePool(3, false), Bounds: bounds, Weight: 3,
+			Build: func(w *world.World) []Thread {
+				c.setWorkload(w, 1)
+				w.CreatePod(c.pod(0))
+				mustSchedule(w, c.pod(0).Key())
+				ips := strings.Join(w.Bindings[0].IPs, ",")
+				w.DeletePod(c.pod(0).Key())
+				deliverAll(w, takePending(w))()
+				repl := c.pod(0)
+				repl.Name = "d-r1-w"
+				w.CreatePod(repl)
+				w.MustKeep = map[string]string{"replacement:" + repl.Key(): ips}
+				return []Thread{
+					{"sched-replacement", scheduleRetry(w, repl.Key(), 2)},
+					{"reload", func() { w.ConfigMap = cfgOnePool(4, false).Pools; _ = w.Reload() }},
+				}
+			},
+			Final: func(w *world.World) {
+				quiesce(w)
+				held := 0
+				for _, st := range w.MemDump() {
+					if st.Alloc && (strings.HasPrefix(st.Key, "dp_ns_d_") || strings.HasPrefix(st.Key, "pool__pl_")) {
+						held++
+					}
+				}
+				if held != 1 {
+					w.MustKeep["violation"] = fmt.Sprintf("one replica, one live pod, but the deployment holds %d IPs: %v", held, allocOnly(w.MemDump()))
+				}
+			},
+		})
+	}
+	return out
+}
+
 // famAPIRelease (S5): an administrator posts a listed entry back to the release API while the
 // scheduler works on the pod that is entitled to the IP.
 func famAPIRelease(cloud bool, bounds map[string]int) []*Scenario {
